@@ -140,7 +140,13 @@ func Yield()             { runtime.Gosched() }
 
 var Files = map[string]string{}
 
-func SetFile(name, content string) { Files[name] = content }
+// SetFile makes a file visible to os.ReadFile (engine: in-memory table; native: a real file in the working directory).
+func SetFile(name, content string) {
+	Files[name] = content
+	if err := os.WriteFile(name, []byte(content), 0o644); err != nil {
+		panic(err)
+	}
+}
 
 // NoPanic runs f and reports whether it panicked (ordinary Go; interpreted as such).
 func NoPanic(f func()) (panicked bool, msg string) {
